@@ -50,7 +50,11 @@ func (dv *defaultVerifierSimple) verifyRoot(root *Node) ([]string, []string, err
 
 	dirsFilesystem := map[string]struct{}{}
 	extraDirs := []string{}
-	if err := fs.WalkDir(
+	rootPath := filepath.Join(dv.targetDir, root.path())
+	if fi, err := os.Stat(rootPath); err == nil && !fi.IsDir() {
+		// the root exists as a file (Mkdir makes one for a childless root with a file extension): there is nothing to walk
+		dirsFilesystem[rootPath] = struct{}{}
+	} else if err := fs.WalkDir(
 		os.DirFS(filepath.Join(dv.targetDir, root.path())),
 		".",
 		func(path string, d fs.DirEntry, err error) error {
